@@ -190,7 +190,8 @@ fn worker(scs: &[Scenario], args: &[String]) {
                 h = mix(&[h, v]);
             }
         }
-        logsum = mix(&[logsum, h]);
+        // commutative combination: independent of how runs are cut into chunks
+        logsum = logsum.wrapping_add(mix(&[h, 0x10c]));
         if let Some(v) = &r.violation {
             let mut o = out.lock();
             let _ = writeln!(o, "V {idx} {}", viol_json(v).to_string_compact());
@@ -458,8 +459,8 @@ fn run_scenario(exe: &std::path::Path, sc: &Scenario, base: u64, total: u64, job
     }
     // order-independent combination of per-chunk logs (chunks are keyed by their start index)
     let mut h = 0u64;
-    for (s, l) in logsums {
-        h = mix(&[h, s, l]);
+    for (_s, l) in logsums {
+        h = h.wrapping_add(l);
     }
     agg.logsum = h;
     agg.found.sort_by_key(|f| f.idx);
